@@ -181,6 +181,7 @@ type ledgerFamilyOpts struct {
 	repoPattern string // tests of vm/embedded/tests traced in the quick tier
 	walks       int
 	walkLen     int
+	reorgs      int // reorganisation scenarios (reorg.go)
 	relevant    func(v ledgerVerdict) bool // is this rejection about this property?
 }
 
@@ -239,6 +240,13 @@ func ledgerFamily(run *core.Run, o ledgerFamilyOpts) {
 		for _, pb := range wr.Problems {
 			run.ReportFor("C09", "C09:producer-problem", "producing pillar reported: "+pb+" in "+wr.Run.Name, map[string]interface{}{"kind": "walk", "run": wr.Run.Name})
 		}
+	}
+	if o.reorgs > 0 {
+		n := o.reorgs
+		if run.Thorough() {
+			n *= 4
+		}
+		runs = append(runs, reorgRuns(run, o.prop, n)...)
 	}
 	if o.locks {
 		runs = append(runs, locksCheck(run, o.prop)...)
